@@ -92,7 +92,7 @@ func c16Gen(c *engine.C) engine.Case {
 		}
 	}
 	var ignored []string
-	special := engine.PickTag(c, "special-dirs", "none", ".git", ".idea", "coca_reporter", "empty-dir", ".idea+empty")
+	special := engine.PickTag(c, "special-dirs", "none", ".git", ".idea", "coca_reporter", "empty-dir", ".idea+empty", ".git+.idea", ".idea+coca_reporter", ".git+.idea+coca_reporter")
 	emptyDir := false
 	switch special {
 	case ".git", ".idea", "coca_reporter":
@@ -101,6 +101,9 @@ func c16Gen(c *engine.C) engine.Case {
 		emptyDir = true
 	case ".idea+empty":
 		ignored, emptyDir = []string{".idea"}, true
+	case ".git+.idea", ".idea+coca_reporter", ".git+.idea+coca_reporter":
+		// several ignored directories that are neighbours in the directory listing
+		ignored = strings.Split(special, "+")
 	}
 	include := engine.PickTag(c, "include-ext", "none", "java", "java,go", "java,js", "c,cpp,h")
 	topSize := []int{30, 1, 2}[c.Choose(3, "top-size")]
